@@ -126,7 +126,7 @@ def record_without_bottleneck(ctx, seeds):
         if not ch:
             continue
         f = os.path.join(ctx.tmp, f'nobn_{k}.json')
-        env = dict(os.environ, PYTHONPATH=core.ROOT)
+        env = dict(os.environ, PYTHONPATH=core.ROOT + (os.pathsep + os.environ['PYTHONPATH'] if os.environ.get('PYTHONPATH') else ''))
         procs.append((subprocess.Popen([core.PY, '-c', 'import sys; from harness.props import c11; c11._main_record()', '--', json.dumps(ch), f],
                                        cwd=core.ROOT, env=env, stdout=subprocess.DEVNULL, stderr=subprocess.PIPE), f))
     recs, ok = [], True
